@@ -100,7 +100,7 @@ func init() {
 	}
 	register(&PropSpec{
 		ID: "C02",
-		Explanation: "Decides, for all paths: CheckSignature accepts only after ParseSigned with the allow-list (default list RS256/ES256/PS256 only), exactly one signature, KeySet verification of that very JWS and byte equality of the verified payload with the parsed payload; every in-module caller of ParseToken (table-checked) returns its claims only after CheckSignature on the same token/payload/claims; each of the three KeySet implementations (table-checked against types.Implements) returns a payload only from jws.Verify with a key selected by FindMatchingKey(kid, sig, alg) resp. the per-client storage lookup; FindMatchingKey's use/alg/kid rules and the ambiguity error; algToKeyType's table. Does not decide go-jose's parsing and signature arithmetic or what a Storage returns.",
+		Explanation: "Decides, for all paths: CheckSignature accepts only after ParseSigned with the allow-list (default list RS256/ES256/PS256 only), exactly one signature, KeySet verification of that very JWS and byte equality of the verified payload with the parsed payload; every in-module caller of ParseToken (table-checked) returns its claims only after CheckSignature on the same token/payload/claims; each of the three KeySet implementations (table-checked against types.Implements) returns a payload only from jws.Verify with a key selected by FindMatchingKey(kid, sig, alg) resp. the per-client storage lookup; FindMatchingKey's use/alg/kid rules and the ambiguity error; algToKeyType's table. Does not decide go-jose's parsing and signature arithmetic or what a Storage returns. Round 3: the remote key set selects candidates from exactly the last successful download (cached path) resp. the refresh result (remote path); the JWKS decoder keeps every key it can parse; HttpRequest reports success only for a decoded 200 body.",
 		RuleText:    "obligation = (rule, function, sink site) plus who-may-call and implementer table rows; non-trivial when a guard fact or table row was needed",
 		Assumptions: []string{"go-jose ParseSigned/Verify are correct", "Storage returns the keys of the named client"},
 		Trusted:     []string{"go/types, go/cfg (x/tools v0.50.0)", "go-jose/v4", "stdlib bytes/strings/encoding"},
